@@ -1071,6 +1071,32 @@ def event_queue():
         ("get", [], "vs", "signal", pa),
         ("get_top_event_if_priority", ["Z"], "vs_opt", "signal", pa),
     ])]
+    # EventQueue.remove_source (not called by the library itself, public API): recognised as exactly
+    #   try: with self._lock: self._contained_screens.remove(signal_source)   except KeyError as e: raise EventQueueError(..) from e
+    # i.e. it touches the set of sources and NOTHING else (in particular not the pending entries)
+    eqc = find_class(parse("simpleline/event_loop/event_queue.py"), "EventQueue")
+    rs = find_func(eqc, "remove_source")
+    W = "EventQueue.remove_source: "
+    if [a.arg for a in rs.args.args] != ["self", "signal_source"] or rs.args.defaults:
+        raise Unsupported(W + "signature")
+    rb = [x for x in body_wo_doc(rs) if not is_log_call(x)]
+    okrs = (len(rb) == 1 and isinstance(rb[0], ast.Try) and not rb[0].orelse and not rb[0].finalbody and len(rb[0].body) == 1
+            and isinstance(rb[0].body[0], ast.With) and len(rb[0].body[0].items) == 1
+            and ast.unparse(rb[0].body[0].items[0].context_expr) == "self._lock" and rb[0].body[0].items[0].optional_vars is None
+            and len(rb[0].body[0].body) == 1 and isinstance(rb[0].body[0].body[0], ast.Expr)
+            and ast.unparse(rb[0].body[0].body[0].value) == "self._contained_screens.remove(signal_source)"
+            and len(rb[0].handlers) == 1 and ast.unparse(rb[0].handlers[0].type) == "KeyError"
+            and len(rb[0].handlers[0].body) == 1 and isinstance(rb[0].handlers[0].body[0], ast.Raise)
+            and isinstance(rb[0].handlers[0].body[0].exc, ast.Call)
+            and ast.unparse(rb[0].handlers[0].body[0].exc.func) == "EventQueueError")
+    if not okrs:
+        raise Unsupported(W + ast.unparse(rs)[:160])
+    out.append("(* EventQueue.remove_source: set.remove raises KeyError for a missing element -> EventQueueError (None = raised) *)\n"
+               "Definition t_eq_remove_source (q : equeue) (v_signal_source : nat) : option equeue :=\n"
+               "  if t_set_mem v_signal_source (eq_sources q)\n"
+               "  then Some {| eq_entries := eq_entries q; eq_counter := eq_counter q;\n"
+               "              eq_sources := filter (fun x => negb (Nat.eqb v_signal_source x)) (eq_sources q) |}\n"
+               "  else None.")
     # AbstractSignal.priority / .source are the plain attributes set by __init__
     ab = find_class(parse("simpleline/event_loop/__init__.py"), "AbstractSignal")
     for prop, attr in (("priority", "_priority"), ("source", "_source")):
